@@ -111,9 +111,9 @@ ADDENDA = {
     "C03": " Added to the type-pair family: every operator on every pair of small literals inside types (condition of a conditional type, index of a type family), and dependent function types obtained through a type-level function under colliding binder names; elimination contexts.",
     "C04": " Added: the value-boundary and type-pair families and elimination contexts (the first 8 states of a derived application are monitored).",
     "C05": " Added: the text gram check prints for the elaborated term is read back and must again be the source with holes filled in; the type-pair family's additions (see C03) are judged for acceptance here.",
-    "C06": " Added: the value-boundary family, operands still to be computed in the operand sweep, elimination contexts for programs of ground result type, and on every term of the pair sets the weak-head normal form of its body under its own binders must be convertible with it in the reference (a reduct), so that a rule that rebuilds a stuck term wrongly does not cancel out between the two sides of unify.",
+    "C06": " Added: the value-boundary family, operands still to be computed in the operand sweep, elimination contexts for programs of ground result type, and on every term of the pair sets the weak-head normal form of its body under its own binders must be convertible with it in the reference (a reduct), so that a rule that rebuilds a stuck term wrongly does not cancel out between the two sides of unify; conditionals stuck on a neutral application with convertible, differently written arguments are in the pair sets.",
     "C08": " Added naming pools: {_a, __, _} and {_a, a, _} (names that begin with the placeholder character), {aé1, aé2, _} and {éa, é漢, _} (names of mixed character widths that differ only in their last character).",
-    "C12": " Added: the occurs check through the definitions of the context (the hole against the name of a definition that contains it, 240 problems, judged on the cells: no cell solved by a term containing that cell), and all ordered pairs of terms whose operators are stuck on variables, hole-free (consistency; a term against itself and its reduct must succeed) and with punched holes.",
+    "C12": " Added: the occurs check through the definitions of the context (the hole against the name of a definition that contains it, 240 problems, judged on the cells: no cell solved by a term containing that cell), and all ordered pairs of terms whose operators are stuck on variables, hole-free (consistency; a term against itself and its reduct must succeed) and with punched holes; implicit twins of the first functions and function types in the pair sweep; the occurs check in every child position of every term former (the hole against a weak-head normal term that contains it, under a context of two parameters).",
     "C13": " Added to the repeat-run differential: groups whose annotations produce several diagnostics, and every sentence up to 5/6 tokens (class alphabet) and 6..8/9 tokens (conditionals and definitions) with two stray tokens inserted at every pair of positions, tokenised and parsed three times with fresh hash keys.",
     "C14": " Added: printing the result is a stage (as gram check prints it); definitions that contain holes and are used by name, with the late-hole and value-boundary families; at process level `gram run FILE` and `gram FILE` on every file case (agreement with each other and with gram check), and every diagnostic of the in-process pipeline must be on stderr, whole and in order.",
     "C15": " Added: compound offenders (every kind of compound expression where another class is required; some diagnostic must mark exactly the compound) and definition-order diagnostics (the excerpt lies inside the definition the message names).",
